@@ -562,7 +562,38 @@ func CheckProduce(c ProduceCase) *kit.Violation {
 	if !bytes.Equal(w.buf.Bytes(), want) {
 		return kit.Failf("%s producer from %s: the sink received %d bytes %q, the source holds %d bytes %q", c.Codec, c.Src, w.buf.Len(), clipb(w.buf.Bytes()), len(want), clipb(want))
 	}
+	// one producer value serves many responses: a second Produce that starts while the sink of the first is still
+	// inside Write (here: called from that Write) must not change what the first sink is given (r9)
+	if (c.Src == sString || c.Src == sStringPtr || c.Src == sNamedStr) && len(data) > 0 {
+		other := bytes.Repeat([]byte{'#'}, len(data))
+		rs := &reentrantSink{prod: prod, inner: string(other)}
+		var err2 error
+		if v := kit.Guard("producer used again from inside the sink's Write", func() { err2 = prod.Produce(rs, src) }); v != nil {
+			return v
+		}
+		if err2 != nil || !bytes.Equal(rs.got, data) {
+			return kit.Failf("%s producer from %s: SHARED-SCRATCH: a second Produce on the same producer value started while the first sink was inside Write; the first sink received %q, the source holds %q (err=%v)", c.Codec, c.Src, clipb(rs.got), clipb(data), err2)
+		}
+	}
 	return nil
+}
+
+// reentrantSink starts another Produce on the same producer from inside its first Write, then takes the bytes it was handed.
+type reentrantSink struct {
+	prod  rt.Producer
+	inner string
+	done  bool
+	got   []byte
+}
+
+func (r *reentrantSink) Write(p []byte) (int, error) {
+	if !r.done {
+		r.done = true
+		var other bytes.Buffer
+		_ = r.prod.Produce(&other, r.inner)
+	}
+	r.got = append(r.got, p...)
+	return len(p), nil
 }
 
 // Generators ---------------------------------------------------------------------------------------
